@@ -940,34 +940,34 @@ fn main() {
             SubCheck {
                 name: "random-bytes",
                 about: "uniform / prefix-biased random bytes (0..4 KiB) to both decoders of every type",
-                source: Source::Random { len: 4200, quick: 400_000, thorough: 8_000_000 },
+                source: Source::Random { len: 4200, quick: 500_000, thorough: 10_000_000 },
                 run: case_random,
                 inflight: true,
-                min_nontrivial: 20_000,
+                min_nontrivial: 100_000,
                 required_labels: &["ok", "err:EndOfBuffer", "err:InvalidBool", "err:InvalidOptional", "type:FullBlock"],
             },
             SubCheck {
                 name: "mutated-valid",
                 about: "valid encodings with 1-4 structural mutations",
-                source: Source::Random { len: 1400, quick: 120_000, thorough: 2_400_000 },
+                source: Source::Random { len: 1400, quick: 200_000, thorough: 4_000_000 },
                 run: case_mutated,
                 inflight: true,
-                min_nontrivial: 30_000,
+                min_nontrivial: 50_000,
                 required_labels: &["ok", "err:EndOfBuffer", "err:InputTooLarge", "err:InvalidString", "type:FullBlock"],
             },
             SubCheck {
                 name: "valid-plus-minus-one",
                 about: "valid encoding decodes; + trailing byte(s) ⇒ Err; − last byte ⇒ Err; receiver operations on the decoded value",
-                source: Source::Random { len: 1100, quick: 60_000, thorough: 1_200_000 },
+                source: Source::Random { len: 1100, quick: 90_000, thorough: 1_800_000 },
                 run: case_plus_minus,
                 inflight: true,
-                min_nontrivial: 20_000,
+                min_nontrivial: 35_000,
                 required_labels: &["ok", "err:InputTooLarge", "err:EndOfBuffer", "type:ProofOfSpace"],
             },
             SubCheck {
                 name: "length-prefixes",
                 about: "4-byte windows of valid encodings that parse as lengths set to 2^32-1, 2^31, 2^24, remaining+1",
-                source: Source::Random { len: 1100, quick: 40_000, thorough: 800_000 },
+                source: Source::Random { len: 1100, quick: 60_000, thorough: 1_200_000 },
                 run: case_lengths,
                 inflight: true,
                 min_nontrivial: 10_000,
@@ -976,19 +976,19 @@ fn main() {
             SubCheck {
                 name: "nested-length-prefixes",
                 about: "synthesised sequences of length prefixes / option prefixes against nested Vec/Option types and all others",
-                source: Source::Random { len: 400, quick: 400_000, thorough: 8_000_000 },
+                source: Source::Random { len: 400, quick: 500_000, thorough: 10_000_000 },
                 run: case_nested,
                 inflight: true,
-                min_nontrivial: 20_000,
+                min_nontrivial: 100_000,
                 required_labels: &["nested-length-prefixes", "ok", "type:Vec<Vec<Vec<u16>>>"],
             },
             SubCheck {
                 name: "program-fields",
                 about: "Program fields replaced by deep nesting (0xff×n up to 200k), long lists, huge atom prefixes, back-references",
-                source: Source::Random { len: 900, quick: 40_000, thorough: 800_000 },
+                source: Source::Random { len: 900, quick: 60_000, thorough: 1_200_000 },
                 run: case_program,
                 inflight: true,
-                min_nontrivial: 10_000,
+                min_nontrivial: 20_000,
                 required_labels: &[
                     "deep-program",
                     "deep-program:complete-left-nested",
@@ -1001,10 +1001,10 @@ fn main() {
             SubCheck {
                 name: "prefix-sweep",
                 about: "prefix-like positions of valid encodings swept over all 256 byte values",
-                source: Source::Random { len: 1100, quick: 30_000, thorough: 600_000 },
+                source: Source::Random { len: 1100, quick: 40_000, thorough: 800_000 },
                 run: case_sweep,
                 inflight: true,
-                min_nontrivial: 8_000,
+                min_nontrivial: 15_000,
                 required_labels: &["ok", "err:InvalidPoS", "err:InvalidFullBlock", "err:InvalidEnum"],
             },
         ],
